@@ -42,6 +42,11 @@ def distribute(rng, triples, kind):
             g.add(t)
         return g
     g = rdflib.Dataset() if kind == "Dataset" else rdflib.ConjunctiveGraph()
+    if kind == "ConjunctiveGraph" and rng.random() < 0.3:
+        # a ConjunctiveGraph filled from the quads of a Dataset: one of its contexts is named urn:x-rdflib:default
+        ds = distribute(rng, triples, "Dataset")
+        g.addN(ds.quads((None, None, None, None)))
+        return g
     names = [URIRef("urn:g%d" % i) for i in range(rng.randint(1, 3))]
     style = rng.choice(["mixed", "named_only", "default_only", "mixed"])
     for t in triples:
